@@ -760,8 +760,14 @@ func writeEvidence(prop string, cfg propCfg, tier string, seed uint64, agg *fw.R
 		cov["distinct_nontrivial"] = 0
 		cov["samples"] = []any{}
 	}
-	if cov["samples"] == nil {
+	if l, ok := cov["samples"].([]any); !ok || l == nil {
 		cov["samples"] = []any{}
+	}
+	if inconclusive == nil {
+		inconclusive = []string{}
+	}
+	if known == nil {
+		known = []string{}
 	}
 	cov["rule"] = cfg.Rule
 	cov["hooks"] = hooks
